@@ -169,19 +169,20 @@ def router_part(tier, seed, binary, workdir, name, consts, sz, only_case=None):
         part["cases"] += 1
         regs = ln["regs"]
         for run in ln["runs"]:
-            part["evals"] += len(run["steps"]) + len(run["res"]) * sz["router_reps"]
-            for r, s in zip(run["order"], run["steps"]):
-                part["cov"]["%s:%s:%s" % (name, r["m"], s)] += 1
-            for q, got in enumerate(run["res"]):
-                for g in got:
-                    if g <= 0:
-                        cls = "none"
-                    else:
-                        reg = regs[g - 1]
-                        cls = reg["m"] if reg["m"] != "v1" else ("exact" if "".join(reg["n"]) == ports[q] else "contained")
-                    part["cov"]["%s:resolve:%s" % (name, cls)] += 1
+            part["evals"] += len(run["s"]) + len(run["r"]) * sz["router_reps"]
+            for ix, ok in zip(run["o"], run["s"]):
+                part["cov"]["%s:%s:%s" % (name, regs[ix - 1]["m"], "ok" if ok else "panic")] += 1
+            for q, g in enumerate(run["r"]):
+                if g <= 0:
+                    cls = "none"
+                else:
+                    reg = regs[g - 1]
+                    cls = reg["m"] if reg["m"] != "v1" else ("exact" if "".join(reg["n"]) == ports[q] else "contained")
+                part["cov"]["%s:resolve:%s" % (name, cls)] += 1
+            if run["u"]:
+                part["cov"]["%s:resolve:unstable" % name] += 1
             if len(regs) >= 2:
-                part["sigs"].add((version, json.dumps(run["order"]), "".join(s[0] for s in run["steps"])))
+                part["sigs"].add((version, ln["tr"], tuple(run["o"]), tuple(run["s"])))
     for tr, step, prop, clause in fails:
         if tr not in part["failing"] and tr in by_id:
             c = dict(by_id[tr])
@@ -190,12 +191,14 @@ def router_part(tier, seed, binary, workdir, name, consts, sz, only_case=None):
                                    "doc": {"version": version, "ports": doc["ports"], "cases": [c]}}
     first = next(iter(merged.values()))
     for ln in merged.values():
-        if len(ln["regs"]) >= 2 and any("panic" in r["steps"] for r in ln["runs"]):
+        if len(ln["regs"]) >= 2 and any(0 in r["s"] for r in ln["runs"]):
             first = ln
             break
-    part["sample"] = {"case": first["tr"], "registrations": [r["m"] + ":" + "".join(r["n"]) for r in first["regs"]],
-                      "runs": [{"order": [r["m"] + ":" + "".join(r["n"]) for r in run["order"]], "steps": run["steps"],
-                                "resolution": dict(zip(ports, run["res"]))} for run in first["runs"][:2]]}
+    names = [r["m"] + ":" + "".join(r["n"]) for r in first["regs"]]
+    part["sample"] = {"case": first["tr"], "registrations": names,
+                      "runs": [{"order": [names[i - 1] for i in run["o"]], "accepted": run["s"],
+                                "resolution": {p: (names[g - 1] if g > 0 else None) for p, g in zip(ports, run["r"])},
+                                "unstable_ports": run["u"]} for run in first["runs"][:2]]}
     return part
 
 
